@@ -12,6 +12,8 @@ import Driver.Refs
 import Driver.Alt
 import Driver.Lines
 import Driver.Link
+import Driver.CodePair
+import Driver.Entity
 
 def dispatch (line : String) : String :=
   match line.trimAscii.toString.splitOn " " with
@@ -28,6 +30,8 @@ def dispatch (line : String) : String :=
   | "alt" :: args => Driver.Alt.handle args
   | "lines" :: args => Driver.Lines.handle args
   | "link" :: args => Driver.Link.handle args
+  | "codepair" :: args => Driver.CodePair.handle args
+  | "entity" :: args => Driver.Entity.handle args
   | _ => "bad-stream"
 
 partial def loop (h : IO.FS.Stream) (out : IO.FS.Stream) : IO Unit := do
